@@ -8,6 +8,9 @@ def run(tier, seed):
     c07.NOT_COVERED.clear()
     for ob in c07.c07_obligations(tier):
         rep.add(ob)
+    from ..symnum import odeint_body
+    for ob in odeint_body.obligations():
+        rep.add(ob)
     rep.level = 'other'
     rep.functions.append(dict(file='EoN/analytic.py', qualname='EBCM, SIR compact / super-compact pairwise, EBCM_pref_mix, homogeneous / heterogeneous / compact pairwise and mean-field models (SIS and SIR) through their *_from_graph wrappers'))
     rep.explanation = ('Each model is executed unmodified with the odeint contract stub; the recorded right-hand side, the initial state and the '
